@@ -572,6 +572,13 @@ func AppendMarshalText(ctx *RuntimeContext, code *Opcode, b []byte, v interface{
 			rv = newV
 		}
 	}
+	if rv.Kind() == reflect.Ptr && rv.IsNil() {
+		if (code.Flags & MapKeyFlags) != 0 {
+			// a nil pointer as map key is the empty name
+			return AppendString(ctx, b, ""), nil
+		}
+		return AppendNull(ctx, b), nil
+	}
 	v = rv.Interface()
 	marshaler, ok := v.(encoding.TextMarshaler)
 	if !ok {
@@ -594,6 +601,13 @@ func AppendMarshalTextIndent(ctx *RuntimeContext, code *Opcode, b []byte, v inte
 			newV.Elem().Set(rv)
 			rv = newV
 		}
+	}
+	if rv.Kind() == reflect.Ptr && rv.IsNil() {
+		if (code.Flags & MapKeyFlags) != 0 {
+			// a nil pointer as map key is the empty name
+			return AppendString(ctx, b, ""), nil
+		}
+		return AppendNull(ctx, b), nil
 	}
 	v = rv.Interface()
 	marshaler, ok := v.(encoding.TextMarshaler)
